@@ -438,3 +438,123 @@ V('v08.14', 'C08', 'F', 'C08.R4', 'final iterations = max_iter', (LINKERS, LT, '
 V('v08.15', 'C08', 'F', 'C08.R6', '_LAGS receives leads', (LINKERS, 'BaseLinker.__init__', "self.__dict__['_LAGS'] = lags", "self.__dict__['_LAGS'] = leads"))
 V('v08.s1', 'C08', 'S', None, 'tuple comparison of spans', (LINKERS, 'BaseLinker.__init__', 'if list(comparator.span) != list(base.span):', 'if tuple(comparator.span) != tuple(base.span):'))
 V('v08.s2', 'C08', 'S', None, 'np.absolute', (LINKERS, LT, 'np.all(np.abs(v) < tol)', 'np.all(np.absolute(v) < tol)'))
+
+# ---------------------------------------------------------------------------
+# C01
+# ---------------------------------------------------------------------------
+V('v01.1', 'C01', 'F', 'C01.R1', 'leads rendered [t-k]', (PARSER, 'Term.__str__', "index = f'[t+{self.index_}]'", "index = f'[t-{self.index_}]'"))
+V('v01.2', 'C01', 'F', 'C01.R1', 'k == 0 renders [t+0]', (PARSER, 'Term.__str__', "index = '[t]'", "index = '[t+0]'"))
+V('v01.2b', 'C01', 'F', 'C01.R1', 'negative branch adds a minus', (PARSER, 'Term.__str__', "index = f'[t{self.index_}]'", "index = f'[t-{self.index_}]'"))
+V('v01.2c', 'C01', 'F', 'C01.R1', 'sign test flipped', (PARSER, 'Term.__str__', 'if self.index_ > 0:', 'if self.index_ < 0:'))
+V('v01.3', 'C01', 'F', 'C01.R1', 'substring replacement of function names',
+  (PARSER, 'Term.code', 'return replacement_function_names.get(code, code)', "for k, v in replacement_function_names.items():\n                code = code.replace(k, v)\n            return code"))
+V('v01.4', 'C01', 'F', 'C01.R1', "self. instead of self._", (PARSER, 'Term.code', "return 'self._' + code", "return 'self.' + code"))
+V('v01.4b', 'C01', 'F', 'C01.R1', 'keywords no longer replaced', (PARSER, 'Term.code', 'if self.type in (Type.FUNCTION, Type.KEYWORD):', 'if self.type in (Type.FUNCTION,):'))
+V('v01.5', 'C01', 'F', 'C01.R2', 'numpy import removed', (PARSER, '', 'import numpy as np  # noqa: F401\n', ''))
+V('v01.6', 'C01', 'F', 'C01.R2', 'log -> np.log10', (PARSER, '', "'log': 'np.log',", "'log': 'np.log10',"))
+V('v01.6b', 'C01', 'F', 'C01.R2', 'typing Optional import removed', (PARSER, '', '    Optional,\n', ''), (PARSER, '', 'index: Optional[Union[int, str]] = None', 'index = None'),
+  (PARSER, 'Term', 'index_: Optional[Union[int, str]]', 'index_: Union[int, str, None]'), (PARSER, 'Symbol', """    name: Optional[str]
+    type: Type
+    lags: Optional[int]
+    leads: Optional[int]
+    equation: Optional[str]
+    code: Optional[str]""", """    name: Union[str, None]
+    type: Type
+    lags: Union[int, None]
+    leads: Union[int, None]
+    equation: Union[str, None]
+    code: Union[str, None]"""))
+V('v01.8', 'C01', 'F', 'C01.R3', 'code formatted over reversed terms',
+  (PARSER, 'parse_equation', 'code = template.format(*[t.code for t in terms])', 'code = template.format(*[t.code for t in terms[::-1]])'))
+V('v01.8b', 'C01', 'F', 'C01.R3', 'equation formatted from the raw text',
+  (PARSER, 'parse_equation', 'equation = template.format(*[str(t) for t in terms])', 'equation = re.sub(r"\\s+", " ", equation)'))
+V('v01.9', 'C01', 'F', 'C01.R4', 'int(index_[:2])', (PARSER, 'parse_terms', 'index = int(index_)', 'index = int(index_[:2])'))
+V('v01.10', 'C01', 'F', 'C01.R4', 'missing index -> 1', (PARSER, 'parse_terms', '                index = 0\n', '                index = 1\n'))
+V('v01.11', 'C01', 'F', 'C01.R5', r'no \b after the keyword group', (PARSER, '', r"rf'(?: \b (?P<_KEYWORD> {KEYWORD_LIST} ) \b )|'", r"rf'(?: \b (?P<_KEYWORD> {KEYWORD_LIST} ) )|'"))
+V('v01.12', 'C01', 'F', 'C01.R5', 'FUNCTION after the variable alternative',
+  (PARSER, '', r"""        (?: (?P<_FUNCTION> [_A-Za-z][_A-Za-z0-9.]*[_A-Za-z0-9]* ) \s* (?= \( ) )|
+
+        (?:
+            (?: \{ \s* (?P<_PARAMETER> [_A-Za-z][_A-Za-z0-9]* ) \s* \} )|
+            (?: \< \s* (?P<_ERROR>     [_A-Za-z][_A-Za-z0-9]* ) \s* \> )|
+            (?:        (?P<_VARIABLE>  [_A-Za-z][_A-Za-z0-9]* )        )
+        )
+        (?: \[ \s* (?P<INDEX> .*? ) \s* \] )?
+""", r"""        (?:
+            (?:
+                (?: \{ \s* (?P<_PARAMETER> [_A-Za-z][_A-Za-z0-9]* ) \s* \} )|
+                (?: \< \s* (?P<_ERROR>     [_A-Za-z][_A-Za-z0-9]* ) \s* \> )|
+                (?:        (?P<_VARIABLE>  [_A-Za-z][_A-Za-z0-9]* )        )
+            )
+            (?: \[ \s* (?P<INDEX> .*? ) \s* \] )?
+        )|
+        (?: (?P<_FUNCTION> [_A-Za-z][_A-Za-z0-9.]*[_A-Za-z0-9]* ) \s* (?= \( ) )
+"""))
+V('v01.12b', 'C01', 'F', 'C01.R5', 'keyword list hard-coded and incomplete', (PARSER, '', "KEYWORD_LIST = '|'.join(keyword.kwlist)", "KEYWORD_LIST = 'if|else|for|in|not|and|or'"))
+V('v01.12c', 'C01', 'F', 'C01.R5', 'function lookahead removed', (PARSER, '', r"(?: (?P<_FUNCTION> [_A-Za-z][_A-Za-z0-9.]*[_A-Za-z0-9]* ) \s* (?= \( ) )|", r"(?: (?P<_FUNCTION> [_A-Za-z][_A-Za-z0-9.]*[_A-Za-z0-9]* ) \s* \( )|"))
+V('v01.13', 'C01', 'F', 'C01.R6', 'equations emitted in sorted order',
+  (PARSER, 'build_model_definition', """        converter(s)
+        for s in symbols
+        # Only convert""", """        converter(s)
+        for s in sorted(symbols, key=lambda x: str(x.name))
+        # Only convert"""))
+V('v01.14', 'C01', 'F', 'C01.R6', 'parse_model returns a set-ordered list', (PARSER, 'parse_model', 'return list(symbols.values()) + verbatim', 'return list(set(symbols.values())) + verbatim'))
+V('v01.s1', 'C01', 'S', None, 'f-strings -> concatenation', (PARSER, 'Term.__str__', "index = f'[t+{self.index_}]'", "index = '[t+' + str(self.index_) + ']'"))
+V('v01.s2', 'C01', 'S', None, '.get -> conditional expression',
+  (PARSER, 'Term.code', 'return replacement_function_names.get(code, code)', 'return replacement_function_names[code] if code in replacement_function_names else code'))
+V('v01.s3', 'C01', 'S', None, 'PARAMETER and ERROR alternatives swapped',
+  (PARSER, '', r"""            (?: \{ \s* (?P<_PARAMETER> [_A-Za-z][_A-Za-z0-9]* ) \s* \} )|
+            (?: \< \s* (?P<_ERROR>     [_A-Za-z][_A-Za-z0-9]* ) \s* \> )|""", r"""            (?: \< \s* (?P<_ERROR>     [_A-Za-z][_A-Za-z0-9]* ) \s* \> )|
+            (?: \{ \s* (?P<_PARAMETER> [_A-Za-z][_A-Za-z0-9]* ) \s* \} )|"""))
+V('v01.s4', 'C01', 'S', None, 'str.format rendering', (PARSER, 'Term.__str__', "index = f'[t{self.index_}]'", "index = '[t{}]'.format(self.index_)"))
+V('v01.s5', 'C01', 'S', None, 'sign test rewritten', (PARSER, 'Term.__str__', 'if self.index_ > 0:', 'if self.index_ >= 1:'))
+V('v01.i1', 'C01', 'I', None, 'percent formatting', (PARSER, 'Term.__str__', "index = f'[t+{self.index_}]'", "index = '[t%+d]' % self.index_"))
+
+# ---------------------------------------------------------------------------
+# C03
+# ---------------------------------------------------------------------------
+V('v03.1', 'C03', 'F', 'C03.R3', 'min/max swapped between lags and leads',
+  (PARSER, 'Symbol.combine', 'lags = resolve_by_type_pair(self.lags, other.lags, min)', 'lags = resolve_by_type_pair(self.lags, other.lags, max)'),
+  (PARSER, 'Symbol.combine', 'leads = resolve_by_type_pair(self.leads, other.leads, max)', 'leads = resolve_by_type_pair(self.leads, other.leads, min)'))
+V('v03.2', 'C03', 'F', 'C03.R3', 'implicit 0 dropped', (PARSER, 'Symbol.combine', 'outcome = function(this, that, 0)', 'outcome = function(this, that)'))
+V('v03.3', 'C03', 'F', 'C03.R3', '(int, str) row returns 0', (PARSER, 'Symbol.combine', '                outcome = this\n', '                outcome = 0\n'))
+V('v03.4', 'C03', 'F', 'C03.R2', 'ENDOGENOUS declared before EXOGENOUS',
+  (PARSER, 'Type', '    EXOGENOUS = enum.auto()\n    ENDOGENOUS = enum.auto()\n', '    ENDOGENOUS = enum.auto()\n    EXOGENOUS = enum.auto()\n'))
+V('v03.5', 'C03', 'F', 'C03.R2', 'promotion guard tests only self.type',
+  (PARSER, 'Symbol.combine', """            if self.type not in (
+                Type.VARIABLE,
+                Type.EXOGENOUS,
+                Type.ENDOGENOUS,
+            ) or other.type not in (Type.VARIABLE, Type.EXOGENOUS, Type.ENDOGENOUS):""", """            if self.type not in (
+                Type.VARIABLE,
+                Type.EXOGENOUS,
+                Type.ENDOGENOUS,
+            ):"""))
+V('v03.5b', 'C03', 'F', 'C03.R2', 'PARAMETER admitted to promotion',
+  (PARSER, 'Symbol.combine', 'or other.type not in (Type.VARIABLE, Type.EXOGENOUS, Type.ENDOGENOUS):', 'or other.type not in (Type.VARIABLE, Type.EXOGENOUS, Type.ENDOGENOUS, Type.PARAMETER):'))
+V('v03.6', 'C03', 'F', 'C03.R1', 'tags swapped',
+  (PARSER, 'parse_equation_terms', 'lhs_terms = [replace_type(t, Type.ENDOGENOUS) for t in parse_terms(left)]', 'lhs_terms = [replace_type(t, Type.EXOGENOUS) for t in parse_terms(left)]'))
+V('v03.6b', 'C03', 'F', 'C03.R1', 'split at the last =', (PARSER, 'parse_equation_terms', "left, right = equation.split('=', maxsplit=1)", "left, right = equation.rsplit('=', maxsplit=1)"))
+V('v03.6c', 'C03', 'F', 'C03.R1', 'retag everything', (PARSER, 'parse_equation_terms', 'if term.type == Type.VARIABLE:', 'if term.type != Type.FUNCTION:'))
+V('v03.7', 'C03', 'F', 'C03.R5', 'min_lags applied to explicit lags',
+  (PARSER, 'build_model_definition', "            lags = 0\n\n        lags = max(lags, min_lags)\n", "            lags = 0\n\n    lags = max(lags, min_lags)\n"))
+V('v03.8', 'C03', 'F', 'C03.R5', 'parameter/error filters swapped',
+  (PARSER, 'build_model_definition', 'parameters = [s.name for s in symbols if s.type == Type.PARAMETER]', 'parameters = [s.name for s in symbols if s.type == Type.ERROR]'),
+  (PARSER, 'build_model_definition', 'errors     = [s.name for s in symbols if s.type == Type.ERROR]', 'errors     = [s.name for s in symbols if s.type == Type.PARAMETER]'))
+V('v03.8b', 'C03', 'F', 'C03.R5', 'leads from min', (PARSER, 'build_model_definition', 'leads = abs(max(s.leads for s in non_indexed_symbols))', 'leads = abs(min(s.leads for s in non_indexed_symbols))'))
+V('v03.8c', 'C03', 'F', 'C03.R5', 'LAGS/LEADS fields crossed in the untyped template',
+  (PARSER, 'MODEL_TEMPLATE_UNTYPED', '    LAGS = {lags}\n    LEADS = {leads}\n', '    LAGS = {leads}\n    LEADS = {lags}\n'))
+V('v03.8d', 'C03', 'F', 'C03.R5', 'Fortran twin: lags without the floor', (FORTRAN, 'build_fortran_definition', '        lags = max(lags, min_lags)\n', ''))
+V('v03.9', 'C03', 'F', 'C03.R7', 'default start uses leads', (IFACE, 'SolverMixin.iter_periods', 'start = self.span[self.lags]', 'start = self.span[self.leads]'))
+V('v03.10', 'C03', 'F', 'C03.R7', 'default end = span[-leads]', (IFACE, 'SolverMixin.iter_periods', 'end = self.span[-1 - self.leads]', 'end = self.span[-self.leads]'))
+V('v03.11', 'C03', 'F', 'C03.R4', 'double definition keeps the first silently',
+  (PARSER, 'Symbol.combine', """                if old != new:
+                    raise ParserError(
+                        f"Endogenous variable '{self.name}' defined twice:"
+                        f'\\n    {old}\\n    {new}'
+                    )
+""", """                pass
+"""))
+V('v03.12', 'C03', 'F', 'C03.R6', 'later mention replaces the earlier symbol position',
+  (PARSER, 'parse_model', 'symbols[name] = symbols.get(name, symbol).combine(symbol)', 'symbols[name] = symbols.pop(name, symbol).combine(symbol)'))
+V('v03.s1', 'C03', 'S', None, 'affine rewrite of default end', (IFACE, 'SolverMixin.iter_periods', 'end = self.span[-1 - self.leads]', 'end = self.span[-(self.leads + 1)]'))
